@@ -5,6 +5,10 @@ import FP.Proofs.KFDCWalks
 import FP.Proofs.KFDCSearch
 import FP.Proofs.WalkWitness
 import FP.Proofs.Reach
+import FP.Proofs.KFDCRangeWitness
+import FP.Proofs.KFDCRangeInt
+import FP.Proofs.KFDCRangeRat
+import FP.Proofs.FlowDecompExists
 /-!
 # C04 — MinFlowDecompCycles finds a decomposition into the fewest walks
 
@@ -32,7 +36,30 @@ Objects (all mirrored from the code and tied to it by the harness):
 * T5 `mfdc_search_minimal`, `mfdc_search_finds`, `mfdc_min_walks`, `mfdc_minimum_int` — the search
                           returns the least feasible k; no decomposition with weights ≥ 1 has fewer walks.
 
-Not proven (kept as a statement below): that the search range `k ≤ |E|` is large enough. Not modelled:
+* T6 the search range `for k in range(lower bound, |E(G)| + 1)`:
+     `search_range_counterexample`, `search_range_not_adequate`, `search_range_counterexample_unsolved` —
+                          the range is **not** adequate on every input: with subset constraints the
+                          minimum number of walks can exceed `|E|` (two sources → hub → three sinks, the
+                          six constraints `{(s_a,m),(m,t_b)}`: satisfiable for `k = 6`, for no
+                          `k ≤ 5 = |E|`; the search ends unsolved — the real `solve()` returns `False`);
+     `search_range_adequate` — adequate for plain integer instances (`weight_type = int`, edge mode,
+                          nothing ignored, every edge with the flow attribute, no subset constraints):
+                          some k-model satisfiable ⇒ one with `≤ |E|` layers is (`walks_at_most_edges`, `few_walks_suffice`:
+                          any family of walks with positive integer weights can be replaced by at most
+                          `|E|` walks with the same weighted traversal counts);
+     `search_range_adequate_float` — adequate for float weights without subset constraints when every
+                          edge has the flow attribute and some non-ignored flow value is `≥ 1`
+                          (`caratheodory`; ignored edges and additional starts/ends allowed);
+     `search_range_adequate_of_bound`, `mfdc_search_complete_plain`, `mfdc_search_complete_float` — what
+                          the range guarantees: if a k-model with `j < hi` layers is satisfiable, the
+                          lower bound is valid and the solver is conclusive and in time on `lo … j`, the
+                          search returns the least satisfiable `k`; on the two classes above this holds
+                          whenever a decomposition exists at all.
+
+Not covered by T6 (open, not refuted): integer weights together with ignored edges, additional
+starts/ends (node mode) or edges without the attribute; float weights when all non-ignored flow values
+are below `1` (there the product blocks get too few bits for the completeness theorem T2, and the caps of
+T4 make most such instances unsatisfiable anyway). Not modelled:
 `stDiGraph.get_width` / the min-gen-set bound as valid lower bounds (hypothesis `hlo`; brute-force oracle).
 -/
 namespace FP.Props.C04
@@ -244,13 +271,160 @@ theorem mfdc_minimum_int (inp : WalkInput) (σ : Nat → Status) (late : Nat →
     k ≤ j :=
   FP.mfdc_minimum_int_proof inp σ late lo hi k hb hcaps hσ hlo h j hj0 hinj walk w hwalk hw hflow hdec hcov
 
-/-! ## what is not proven -/
+/-! ## T6: the search range `k ≤ |E|` -/
 
-/-- the search range of `MinFlowDecompCycles.solve` (`k ≤ |E|`) contains the minimum: whenever some
-k-model is satisfiable, one with at most `|E(G)|` layers is -/
-def search_range_adequate_Statement : Prop :=
+/-- the search range of `MinFlowDecompCycles.solve` (`k ≤ |E|`) contains the minimum on *every* input:
+whenever some k-model is satisfiable, one with at most `|E(G)|` layers is. **False** (next theorem). -/
+def search_range_adequate_FullStatement : Prop :=
   ∀ (inp : WalkInput) (k : Nat), BaseWF inp.base → KfdcFeasible inp k →
     ∃ j, j ≤ inp.base.edges.length ∧ KfdcFeasible inp j
+
+/-- **T6, the witness.** Two sources `s0, s1`, a hub `m`, three sinks `t0, t1, t2`, the five edges
+`s_a → m` (flow 3) and `m → t_b` (flow 2), `weight_type = int`, and the six subset constraints
+`{(s_a, m), (m, t_b)}`: the k-model is satisfiable for `k = 6` (the six paths with weight 1) and for no
+`k ≤ 5 = |E|` — a walk is one of the six paths and covers one constraint. The loop of `solve()` ends at
+`k = |E| = 5`, so the real `MinFlowDecompCycles(..., subset_constraints=…).solve()` answers `False`
+although six weighted walks decompose the flow and cover every constraint. -/
+theorem search_range_counterexample :
+    BaseWF RangeWitness.inp.base ∧ RangeWitness.inp.base.edges.length = 5 ∧
+    KfdcFeasible RangeWitness.inp 6 ∧
+    (∀ j, j ≤ RangeWitness.inp.base.edges.length → ¬ KfdcFeasible RangeWitness.inp j) :=
+  ⟨RangeWitness.base_wf, rfl, RangeWitness.feasible6, fun j hj => RangeWitness.infeasible_le5 j hj⟩
+
+/-- **T6, negative part.** With subset constraints the range `k ≤ |E|` can miss the minimum. -/
+theorem search_range_not_adequate : ¬ search_range_adequate_FullStatement := by
+  intro h
+  obtain ⟨j, hj, hf⟩ := h RangeWitness.inp 6 RangeWitness.base_wf RangeWitness.feasible6
+  exact RangeWitness.infeasible_le5 j hj hf
+
+/-- … and the search machine run over that range ends unsolved on the witness, whatever the (faithful)
+solver answers: the `False` of the real `solve()`. -/
+theorem search_range_counterexample_unsolved (σ : Nat → Status) (late : Nat → Bool) (lo : Nat)
+    (hσ : FaithfulC RangeWitness.inp σ) :
+    (stopSearchTimed σ late lo (RangeWitness.inp.base.edges.length + 1)).solved = none := by
+  cases h : (stopSearchTimed σ late lo (RangeWitness.inp.base.edges.length + 1)).solved with
+  | none => rfl
+  | some k =>
+    obtain ⟨h1, _, _, h4, _⟩ := FP.Props.C13.timed_sound σ late lo _ k h
+    exact absurd ((hσ k).1 h1) (RangeWitness.infeasible_le5 k (by
+      have : RangeWitness.inp.base.edges.length = 5 := rfl
+      omega))
+
+/-- **T6, the combinatorial core.** On the augmented graph of an input without additional starts/ends
+(`Thin`), every family `F` of source-to-sink walks with positive integer weights, each through an edge of
+the user's graph (`kfdcr_AWalk`), has the same weighted traversal counts `Σ weight · traversals` on
+*every* edge of the augmented graph as a family `A` of at most `#edges of the user's graph` such walks
+(peel simple closed walks off the circulation obtained by closing every walk with `sink → source`, the
+bottleneck always on an edge of the user's graph; closed walks not through the source are absorbed by a
+walk of weight 1 split off a walk they meet). -/
+theorem few_walks_suffice (s : STGraph) (hwf : STWFc s) (hth : Thin s) (F : List (List Node × Nat))
+    (hF : ∀ d ∈ F, kfdcr_AWalk s d) :
+    ∃ A : List (List Node × Nat), A.length ≤ (s.g.edges.filter (isInner s)).length ∧
+      (∀ d ∈ A, kfdcr_AWalk s d) ∧ ∀ e ∈ s.g.edges, kfdcr_tot A e = kfdcr_tot F e :=
+  FP.kfdcr_few_walks hwf hth F hF
+
+/-- **T6, the classical statement on the level of walks** (no LP involved). On a plain instance (edge
+mode, nothing ignored) `k` source-to-sink walks of the augmented graph with natural weights that decompose
+the flow on the edges of the user's graph can be replaced by `j ≤ |E(G)|` source-to-sink walks with
+positive integer weights that decompose it. -/
+theorem walks_at_most_edges (inp : WalkInput) (hb : BaseWF inp.base) (hst : inp.starts = [])
+    (hen : inp.ends = []) (hign : inp.ignore = []) (k : Nat) (walk : Nat → List Node) (c : Nat → Nat)
+    (hwalk : ∀ i, i < k → IsWalkIn inp.st.g (inp.st.source :: walk i ++ [inp.st.sink]))
+    (hdec : IsWalkDecomp inp.st.source inp.st.sink (inp.activeEdges false) inp.f k walk (fun i => (c i : Rat))) :
+    ∃ (j : Nat) (walk' : Nat → List Node) (n : Nat → Nat), j ≤ inp.base.edges.length ∧
+      (∀ i, i < j → 1 ≤ n i ∧ IsWalkIn inp.st.g (inp.st.source :: walk' i ++ [inp.st.sink])) ∧
+      IsWalkDecomp inp.st.source inp.st.sink (inp.activeEdges false) inp.f j walk' (fun i => (n i : Rat)) :=
+  FP.kfdcr_walks_le_edges inp hb hst hen hign k walk c hwalk hdec
+
+/-- **T6, positive part: the range `k ≤ |E|` is adequate for plain integer instances.**
+`weight_type = int`, edge mode (no additional starts/ends), nothing ignored, every edge of the user's
+graph carries the flow attribute, no subset constraints: whenever some k-model is satisfiable, one with
+at most `|E(G)|` layers is. (`hinj`: the product blocks of the k-models up to `|E|` have distinct
+names — the model identifies a column with its name.) -/
+theorem search_range_adequate (inp : WalkInput) (k : Nat) (hb : BaseWF inp.base)
+    (hst : inp.starts = []) (hen : inp.ends = []) (hign : inp.ignore = [])
+    (hint : inp.weightInt = true) (hcons : inp.cfg.constraints = [])
+    (hattr : ∀ e ∈ inp.base.edges, ∃ q, inp.fOpt e = some q)
+    (hinj : ∀ j, j ≤ inp.base.edges.length → NameInj (inp.withK j))
+    (hf : KfdcFeasible inp k) :
+    ∃ j, j ≤ inp.base.edges.length ∧ KfdcFeasible inp j :=
+  FP.kfdcr_range_int inp hb hst hen hign hint hcons hattr hinj k hf
+
+/-- **Carathéodory's theorem for cones** (the algebra behind the float case): a non-negative combination
+of the vectors `vec i`, `i ∈ I`, agrees on the coordinates `Ea` with a non-negative combination of at most
+`|Ea|` of them. -/
+theorem caratheodory (Ea : List Edge) (vec : Nat → Edge → Rat) (I : List Nat) (w : Nat → Rat)
+    (hnd : I.Nodup) (hw : ∀ i ∈ I, 0 ≤ w i) :
+    ∃ (I' : List Nat) (w' : Nat → Rat), I'.Nodup ∧ (∀ i ∈ I', i ∈ I) ∧ I'.length ≤ Ea.length ∧
+      (∀ i ∈ I', 0 ≤ w' i) ∧ ∀ e ∈ Ea, kfdcr_comb I' w' vec e = kfdcr_comb I w vec e :=
+  FP.kfdcr_caratheodory Ea vec I.length I w (Nat.le_refl _) hnd hw
+
+/-- **T6, positive part for float weights.** `weight_type = float`, every edge of the user's graph
+carries the flow attribute (the caps then do not depend on `k`), no subset constraints, some non-ignored
+flow value is at least `1` (so that `w_max ≥ 1` for every `k ≥ 1`; the scaled instance of T4 is excluded
+by this); ignored edges and additional starts/ends are allowed: whenever some k-model is satisfiable, one
+with at most `|E(G)|` layers is — the same walks, re-weighted by Carathéodory's theorem. -/
+theorem search_range_adequate_float (inp : WalkInput) (k : Nat) (hb : BaseWF inp.base)
+    (hfloat : inp.weightInt = false) (hcons : inp.cfg.constraints = [])
+    (hattr : ∀ e ∈ inp.base.edges, ∃ q, inp.fOpt e = some q)
+    (hM : ∃ e ∈ inp.activeEdges false, 1 ≤ inp.f e)
+    (hinj : ∀ j, j ≤ inp.base.edges.length → NameInj (inp.withK j))
+    (hf : KfdcFeasible inp k) :
+    ∃ j, j ≤ inp.base.edges.length ∧ KfdcFeasible inp j :=
+  FP.kfdcr_range_rat inp hb hfloat hcons hattr hM hinj k hf
+
+/-- **T6, what the range does guarantee.** If *some* k-model with `j < hi` layers is satisfiable (for the
+real loop `hi = |E| + 1`, i.e. `j ≤ |E|`), the lower bound is valid and the solver is conclusive and in
+time up to `j`, then the search returns the least satisfiable `k` (and `k ≤ j`). -/
+theorem search_range_adequate_of_bound (inp : WalkInput) (σ : Nat → Status) (late : Nat → Bool)
+    (lo hi j : Nat) (hσ : FaithfulC inp σ) (hlo : ∀ i, i < lo → ¬ KfdcFeasible inp i)
+    (hj : KfdcFeasible inp j) (hjhi : j < hi)
+    (hconcl : ∀ i, lo ≤ i → i ≤ j → σ i ≠ .other ∧ late i = false) :
+    ∃ k, (stopSearchTimed σ late lo hi).solved = some k ∧ k ≤ j ∧ KfdcFeasible inp k ∧
+      ∀ i, i < k → ¬ KfdcFeasible inp i := by
+  obtain ⟨k, hkj, hk, hmin⟩ := FP.exists_least (KfdcFeasible inp) j hj
+  have hlok : lo ≤ k := by
+    apply Classical.byContradiction
+    intro h
+    exact hlo k (by omega) hk
+  refine ⟨k, ?_, hkj, hk, hmin⟩
+  exact FP.mfdc_search_finds_proof inp σ late lo hi k hσ hlok (by omega) hk hmin
+    (fun i h1 h2 => hconcl i h1 (by omega))
+
+/-- **C04 for plain integer instances: the search finds the minimum whenever a decomposition exists.**
+If some k-model is satisfiable at all (any `k`, also beyond the range), the lower bound is valid and the
+solver is conclusive and in time on `lo … |E|`, then the loop `for k in range(lo, |E| + 1)` returns the
+least `k` whose k-model is satisfiable. -/
+theorem mfdc_search_complete_plain (inp : WalkInput) (σ : Nat → Status) (late : Nat → Bool) (lo k : Nat)
+    (hb : BaseWF inp.base) (hst : inp.starts = []) (hen : inp.ends = []) (hign : inp.ignore = [])
+    (hint : inp.weightInt = true) (hcons : inp.cfg.constraints = [])
+    (hattr : ∀ e ∈ inp.base.edges, ∃ q, inp.fOpt e = some q)
+    (hinj : ∀ j, j ≤ inp.base.edges.length → NameInj (inp.withK j))
+    (hσ : FaithfulC inp σ) (hlo : ∀ i, i < lo → ¬ KfdcFeasible inp i)
+    (hf : KfdcFeasible inp k)
+    (hconcl : ∀ i, lo ≤ i → i ≤ inp.base.edges.length → σ i ≠ .other ∧ late i = false) :
+    ∃ k', (stopSearchTimed σ late lo (inp.base.edges.length + 1)).solved = some k' ∧
+      k' ≤ inp.base.edges.length ∧ KfdcFeasible inp k' ∧ ∀ i, i < k' → ¬ KfdcFeasible inp i := by
+  obtain ⟨j, hj, hfj⟩ := search_range_adequate inp k hb hst hen hign hint hcons hattr hinj hf
+  obtain ⟨k', h1, h2, h3, h4⟩ := search_range_adequate_of_bound inp σ late lo (inp.base.edges.length + 1) j
+    hσ hlo hfj (by omega) (fun i hi1 hi2 => hconcl i hi1 (by omega))
+  exact ⟨k', h1, by omega, h3, h4⟩
+
+/-- the same for float weights -/
+theorem mfdc_search_complete_float (inp : WalkInput) (σ : Nat → Status) (late : Nat → Bool) (lo k : Nat)
+    (hb : BaseWF inp.base) (hfloat : inp.weightInt = false) (hcons : inp.cfg.constraints = [])
+    (hattr : ∀ e ∈ inp.base.edges, ∃ q, inp.fOpt e = some q)
+    (hM : ∃ e ∈ inp.activeEdges false, 1 ≤ inp.f e)
+    (hinj : ∀ j, j ≤ inp.base.edges.length → NameInj (inp.withK j))
+    (hσ : FaithfulC inp σ) (hlo : ∀ i, i < lo → ¬ KfdcFeasible inp i)
+    (hf : KfdcFeasible inp k)
+    (hconcl : ∀ i, lo ≤ i → i ≤ inp.base.edges.length → σ i ≠ .other ∧ late i = false) :
+    ∃ k', (stopSearchTimed σ late lo (inp.base.edges.length + 1)).solved = some k' ∧
+      k' ≤ inp.base.edges.length ∧ KfdcFeasible inp k' ∧ ∀ i, i < k' → ¬ KfdcFeasible inp i := by
+  obtain ⟨j, hj, hfj⟩ := search_range_adequate_float inp k hb hfloat hcons hattr hM hinj hf
+  obtain ⟨k', h1, h2, h3, h4⟩ := search_range_adequate_of_bound inp σ late lo (inp.base.edges.length + 1) j
+    hσ hlo hfj (by omega) (fun i hi1 hi2 => hconcl i hi1 (by omega))
+  exact ⟨k', h1, by omega, h3, h4⟩
 
 /-! ## non-vacuity -/
 
@@ -305,6 +479,55 @@ example : ∃ a : Asg, Sat a (kfdcLP readmeInp none) ∧
     (∀ i e, multOf a i e = traversals ("source" :: ["s", "a", "b", "a", "b", "a", "t"] ++ ["sink"]) e) ∧
     (∀ i, a (weightsVar i) = 1) :=
   kfdc_complete_walks readmeInp _ _ readme_wf (by decide) readme_names readme_within
+
+/-- T6 (positive part) applies to the README instance: its hypotheses hold, the k-model for `k = 1` is
+satisfiable, so one with at most `|E| = 4` layers is -/
+theorem readme_names_le : ∀ j, j ≤ readmeInp.base.edges.length → NameInj (readmeInp.withK j) := by
+  unfold NameInj
+  decide +kernel
+
+theorem readme_attr : ∀ e ∈ readmeInp.base.edges, ∃ q, readmeInp.fOpt e = some q := by
+  intro e he
+  have h : (readmeInp.fOpt e).isSome = true := by
+    revert e
+    decide +kernel
+  exact Option.isSome_iff_exists.1 h
+
+theorem readme_feasible1 : KfdcFeasible readmeInp 1 := by
+  obtain ⟨a, ha, _⟩ := kfdc_complete_walks readmeInp _ _ readme_wf (by decide) readme_names readme_within
+  exact ⟨a, ha⟩
+
+example : ∃ j, j ≤ readmeInp.base.edges.length ∧ KfdcFeasible readmeInp j :=
+  search_range_adequate readmeInp 1 readme_wf rfl rfl rfl rfl rfl readme_attr readme_names_le readme_feasible1
+
+/-- `walks_at_most_edges` on the README instance with the walk `s a b a b a t` given twice with weights
+`1` and `0`: at most four walks with positive weights do -/
+example := walks_at_most_edges readmeInp readme_wf rfl rfl rfl 2 (fun _ => ["s", "a", "b", "a", "b", "a", "t"])
+  (fun i => if i = 0 then 1 else 0)
+  (by intro i _; unfold IsWalkIn; decide +kernel)
+  (by unfold IsWalkDecomp; decide +kernel)
+
+/-- … and so the search over `1 … |E|` with a faithful, conclusive and punctual solver returns the minimum -/
+example (σ : Nat → Status) (hσ : FaithfulC readmeInp σ) (hc : ∀ i, σ i ≠ .other) :=
+  mfdc_search_complete_plain readmeInp σ (fun _ => false) 0 1 readme_wf rfl rfl rfl rfl rfl readme_attr
+    readme_names_le hσ (fun i hi => absurd hi (Nat.not_lt_zero i)) readme_feasible1 (fun i _ _ => ⟨hc i, rfl⟩)
+
+/-- T6 for float weights applies to the unscaled self-loop instance of T4 (flows `1`) -/
+theorem loop_names_le : ∀ j, j ≤ (ScaleWitness.inp 1 1).base.edges.length →
+    NameInj ((ScaleWitness.inp 1 1).withK j) := by
+  unfold NameInj
+  decide +kernel
+
+example : ∃ j, j ≤ (ScaleWitness.inp 1 1).base.edges.length ∧ KfdcFeasible (ScaleWitness.inp 1 1) j :=
+  search_range_adequate_float (ScaleWitness.inp 1 1) 1 ScaleWitness.base_wf rfl rfl
+    (by
+      intro e he
+      have h : ((ScaleWitness.inp 1 1).fOpt e).isSome = true := by
+        revert e
+        decide +kernel
+      exact Option.isSome_iff_exists.1 h)
+    ⟨("a", "a"), ScaleWitness.loop_active 1 1, by decide +kernel⟩ loop_names_le
+    ⟨_, ScaleWitness.loop_unscaled_feasible⟩
 
 /-- T5 on the two instances of T4: the unscaled one is found at `k = 1`, on the scaled one every faithful
 script without inconclusive answers makes the search end unsolved (as the real code does) -/
